@@ -166,6 +166,7 @@ pub fn edit(ctx: &mut Ctx) {
         let sel = glob_sel(&pats, &names);
         let mut args: Vec<String> = vec![];
         let mut chown_expect: Option<(Option<(u64, String)>, Option<(u64, String)>)> = None;
+        let mut strip_named = false;
         let mut strip_keep: Option<(bool, Vec<[u8; 4]>, bool, bool, bool)> = None; // (keep all private, kept types, timestamps, permission, xattrs)
         let cmd: &str;
         let model_req: String;
@@ -238,12 +239,15 @@ pub fn edit(ctx: &mut Ctx) {
                 let ka = if forced_strip { case % 4 != 3 } else { rng.gen_bool(0.5) };
                 let kpriv = if forced_strip { case % 3 } else { rng.gen_range(0..3) };
                 args.extend(["strip", "a.pna"].map(String::from));
+                // every second strip names entries: only those are stripped (the FILES arguments were ignored before the fix)
+                strip_named = case % 2 == 0 && !pats.is_empty();
+                if strip_named { for p in &pats { args.push(p.to_string()); } }
                 if kt { args.push("--keep-timestamp".into()); }
                 if kp { args.push("--keep-permission".into()); }
                 if kx { args.push("--keep-xattr".into()); }
                 if ka { args.push("--keep-acl".into()); }
                 let kpw = match kpriv { 0 => "-".to_string(), 1 => { args.push("--keep-private".into()); ".".to_string() } _ => { args.push("--keep-private".into()); args.push("myTy".into()); hexw(b"myTy") } };
-                model_req = format!("transform {strategy} strip {}{}{}{} {kpw} ", kt as u8, kp as u8, kx as u8, ka as u8);
+                model_req = format!("transform {strategy} strip {}{}{}{} {kpw} {} ", kt as u8, kp as u8, kx as u8, ka as u8, if strip_named { names_wire(&sel) } else { "*".to_string() });
                 let mut tys: Vec<[u8; 4]> = vec![];
                 if ka { tys.push(*b"faCl"); tys.push(*b"faCe"); }
                 if kpriv == 2 { tys.push(*b"myTy"); }
@@ -300,7 +304,7 @@ pub fn edit(ctx: &mut Ctx) {
                     .iter()
                     .map(|e| {
                         let mut e = e.clone();
-                        if strategy == "unsolid" && hdr.len() == 5 && hdr[3] != 0 && e.kind == 0 {
+                        if strategy == "unsolid" && hdr.len() == 5 && hdr[3] != 0 && (e.kind == 0 || e.kind == 2) {
                             e.data = format!("{}{}{}{}", hdr[2], hdr[3], hdr[4], &e.data[3..]);
                         }
                         e
@@ -322,7 +326,7 @@ pub fn edit(ctx: &mut Ctx) {
             ctx.violation("C10", "an editing command changed the number of entries", json!({"case":attrs,"before":fb.len(),"after":fa.len()}));
         } else {
             for (b, a) in kept.iter().zip(fa.iter()) {
-                let selected = cmd == "strip" || sel.contains(&b.name);
+                let selected = (cmd == "strip" && !strip_named) || sel.contains(&b.name);
                 let mut diffs = if selected { frame_eq(b, a, cmd) } else { if *b == a { vec![] } else { vec!["unselected entry changed"] } };
                 if selected && cmd == "chown" {
                     // target: the named half is set (when the name resolves), the other half is untouched
@@ -331,7 +335,7 @@ pub fn edit(ctx: &mut Ctx) {
                         if a.owner.as_ref() != Some(&want) { diffs.push("owner differs from the requested change (ids/names of the half that was not named, or wrong ids)"); }
                     } else if b.owner.is_none() && a.owner.is_some() { diffs.push("owner invented"); }
                 }
-                if let Some((all, tys, kt, kp, kx)) = &strip_keep {
+                if let (true, Some((all, tys, kt, kp, kx))) = (selected, &strip_keep) {
                     // strip's target, from its options alone: which private chunks and which metadata survive
                     let want: Vec<([u8; 4], Vec<u8>)> = b.extras.iter().filter(|(t, _)| *all || tys.contains(t)).cloned().collect();
                     if a.extras != want { diffs.push("private chunks kept or removed against the --keep-acl / --keep-private options"); }
